@@ -147,13 +147,17 @@ PROPS["C10"] = dict(
     kani=[KaniSet("src/data_format/mod.rs", "c10_header.rs", [
         Harness("c10_header_twin", "C10.hdr.twin", "B", "twin of C10.hdr.*: every byte string of length <= 12 that does not reach the msgpack decoder (decoder stubbed; unwind 14, unwinding assertions on)"),
     ]),
+        KaniSet("src/cosmetic_filter_cache.rs", "c10_as_css.rs", [
+            Harness("c10_as_css_total", "C10.as_css.total", "B", "operator lists of length 0, 1, 2 over {plain selector, other operator} x {no action, style, remove}, empty strings (unwind 4)"),
+        ]),
         KaniSet("src/filters/network_matchers.rs", "c10_wf.rs", [
             Harness("c10_wf_no_hostname", "C10.wf.no_hostname", "C", "all 2^32 masks x {empty, one-literal} pattern, hostname absent, one fixed request: the four non-regex hostname matchers answer without panicking (string loops bounded by the fixed literals, unwind 10)"),
         ])],
-    trusted=["rmp-serde msgpack decoding (v0::DeserializeFormat::deserialize body)"],
+    trusted=["rmp-serde msgpack decoding (v0::DeserializeFormat::deserialize body)",
+             "shape invariants of decoded rules beyond the ones listed: a hostname-anchored rule without hostname (Kani C harness), a procedural filter with any operator list incl. an empty one (Kani B harness, lists <= 2); fusion of decoded rules with empty any-of lists is covered by C05.fusion.safety (unit c05_optimizer, claimed under C05)"],
     assumptions=[],
-    level_text="Verus proves, for byte slices of any length, that the header/version dispatch never indexes out of bounds and maps each header class to the documented error",
-    level_note="msgpack decoding (rmp-serde) is trusted; see evidence trusted_base",
+    level_text="Verus proves, for byte slices of any length, that the header/version dispatch never indexes out of bounds and maps each header class to the documented error, and that a failed load leaves the engine unchanged; Kani proves that hostname-less anchored rules do not panic the matchers (all masks) and, bounded, that the CSS view of a decoded procedural filter never panics",
+    level_note="msgpack decoding (rmp-serde) is trusted; the procedural-filter harness is a bounded stand-in (operator lists of length <= 2)",
     design_ref="DESIGN.md section 4, C10",
 )
 
